@@ -1,7 +1,169 @@
 import IbModel.Util.Wire
-/-! Driver handlers for C16 (request kinds served for that property). -/
-namespace IB.D16
+import IbModel.Model.Metrics
+/-!
+Driver handlers for C16.
 
-def handlers : List (String × (List String → String)) := []
+`METRICS init=<name:val,…|-> th=<ops>/<ops>/… sched=<i,i,…|->`
+   ops: `i:<name>:<n>` increment, `s:<name>:<n>` set, `rc:<name>:<n>` register counter,
+        `rg:<name>:<tag>` register gauge, `st` record_start, `en` record_end, `el` elapsed,
+        `js` to_json, `sn` snapshot; an empty thread is `-`.
+   answer: `snap=<sorted name:val> el=T|F keys=<sorted keys> secs=<sections per call, per thread> complete=T|F`
+   (the schedule is replayed with the model's CURRENT `increment_counter`; if it ends early the
+    remaining threads are drained in thread order, `complete=F`).
+`STRESS init=<n|none> threads=<t> per=<p> amounts=<a,b,…>`  answer: `final=<n>`
+`MRUN coll=0|1 pre=<ops|-> runs=<ok|pe|ee>:<token>,…`   answer: `res=… coll=… el=… start=… keys=…`
+`MPOISON how=overflow|usermetric|none want=<token>`   answer: `res=ok:<token>`
+`LOCKSITES`   answer: `sites=<method:locks,…> uncovered=0` (source scan of src/metrics.rs vs the model's table)
+-/
+namespace IB.D16
+open IB.Wire IB.Metrics
+
+def val? (s : String) : Option MetricVal :=
+  if s.startsWith "c" then (parseNat? (s.drop 1).toString).map MetricVal.counter
+  else if s.startsWith "g" then (parseNat? (s.drop 1).toString).map MetricVal.other
+  else none
+
+def valStr : MetricVal → String
+  | .counter n => "c" ++ toString n
+  | .other t => "g" ++ toString t
+
+def okName (s : String) : Bool := !s.isEmpty && s.toList.all (fun ch => ch.isAlphanum || ch == '_')
+
+def init? (s : String) : Option (List (String × MetricVal)) :=
+  if s == "-" then some [] else
+  (s.splitOn ",").mapM (fun kv =>
+    match kv.splitOn ":" with
+    | [k, v] => if okName k then (val? v).map (fun v => (k, v)) else none
+    | _ => none)
+
+def op? (s : String) : Option Op :=
+  match s.splitOn ":" with
+  | ["i", k, n] => if okName k then (parseNat? n).map (Op.inc k) else none
+  | ["s", k, n] => if okName k then (parseNat? n).map (Op.set k) else none
+  | ["rc", k, n] => if okName k then (parseNat? n).map (fun n => Op.register k (.counter n)) else none
+  | ["rg", k, n] => if okName k then (parseNat? n).map (fun n => Op.register k (.other n)) else none
+  | ["st"] => some .recordStart
+  | ["en"] => some .recordEnd
+  | ["el"] => some .readElapsed
+  | ["js"] => some .toJson
+  | ["sn"] => some .snapshot
+  | _ => none
+
+def ops? (s : String) : Option (List Op) :=
+  if s == "-" then some [] else (s.splitOn ",").mapM op?
+
+def threads? (s : String) : Option (List (List Op)) := (s.splitOn "/").mapM ops?
+
+def sched? (s : String) : Option (List Nat) :=
+  if s == "-" then some [] else (s.splitOn ",").mapM parseNat?
+
+def sortStrs (l : List String) : List String := l.mergeSort (fun a b => decide (a ≤ b))
+
+def joinOr (sep : String) (l : List String) : String := if l.isEmpty then "-" else sep.intercalate l
+
+def snapStr (c : Collector) : String :=
+  joinOr "," (sortStrs ((snapshot c).map (fun kv => kv.1 ++ ":" ++ valStr kv.2)))
+
+def keysStr (c : Collector) : String := joinOr "," (sortStrs (jsonKeys c))
+
+def secsStr (ths : List Thread) : String :=
+  "/".intercalate (ths.map (fun t => joinOr "." (t.secs.reverse.map toString)))
+
+/-- the initial collector: the listed metrics registered one after the other on an empty collector -/
+def mkCollector (ini : List (String × MetricVal)) : Collector :=
+  ini.foldl (fun c kv => register kv.1 kv.2 c) Collector.empty
+
+def handleMetrics (args : List String) : String :=
+  match kv? "init" args, kv? "th" args, kv? "sched" args with
+  | some i, some t, some s =>
+    if args.length != 3 then "BAD-OP" else
+    match init? i, threads? t, sched? s with
+    | some ini, some ths, some sched =>
+      let s0 := Sys.init (mkCollector ini) ths
+      let s1 := run currentImpl sched s0
+      let complete := s1.complete
+      let s2 := run currentImpl (drainSchedule s1) s1
+      s!"snap={snapStr s2.c} el={boolStr (elapsed s2.c).isSome} keys={keysStr s2.c} secs={secsStr s2.ths} complete={boolStr complete}"
+    | _, _, _ => "BAD-OP"
+  | _, _, _ => "BAD-OP"
+
+def handleStress (args : List String) : String :=
+  match kv? "init" args, kv? "threads" args, kv? "per" args, kv? "amounts" args with
+  | some i, some t, some p, some a =>
+    if args.length != 4 then "BAD-OP" else
+    let ini : Option (List (String × MetricVal)) :=
+      if i == "none" then some [] else (parseNat? i).map (fun n => [("ctr", MetricVal.counter n)])
+    match ini, parseNat? t, parseNat? p, (a.splitOn ",").mapM parseNat? with
+    | some ini, some t, some p, some (a0 :: as) =>
+      let amts := a0 :: as
+      let ths := (List.range t).map (fun j => List.replicate p (Op.inc "ctr" (amts.getD (j % amts.length) 0)))
+      let s0 := Sys.init (mkCollector ini) ths
+      let s1 := run currentImpl (drainSchedule s0) s0
+      s!"final={counterVal "ctr" s1.c} complete={boolStr s1.complete}"
+    | _, _, _, _ => "BAD-OP"
+  | _, _, _, _ => "BAD-OP"
+
+/-- one modelled `run_collect`: `ok` (plan and execution succeed), `pe` (planning error), `ee` (execution error) -/
+def runOne (kind tok : String) (now : Nat) (p : Pipe Unit) : Option (String × Pipe Unit) :=
+  let go (b e : Bool) : String × Pipe Unit :=
+    let r := runCollect (ε := String) (χ := Unit) (ρ := String)
+      (fun _ => if b then .ok () else .error "pe")
+      (fun _ => if e then .ok tok else .error "ee") now (now + 1) p
+    (match r.1 with | .ok t => "ok:" ++ t | .error e => e, r.2)
+  match kind with
+  | "ok" => some (go true true)
+  | "pe" => some (go false true)
+  | "ee" => some (go true false)
+  | _ => none
+
+def runsLoop : List String → Nat → Pipe Unit → List String → Option (List String × Pipe Unit)
+  | [], _, p, acc => some (acc.reverse, p)
+  | r :: rs, now, p, acc =>
+    match r.splitOn ":" with
+    | [kind, tok] =>
+      match runOne kind tok now p with
+      | some (res, p') => runsLoop rs (now + 2) p' (res :: acc)
+      | none => none
+    | _ => none
+
+def handleMrun (args : List String) : String :=
+  match kv? "coll" args, kv? "pre" args, kv? "runs" args with
+  | some cflag, some pre, some runs =>
+    if args.length != 3 then "BAD-OP" else
+    match ops? pre, (cflag == "0" || cflag == "1") with
+    | some preOps, true =>
+      let c0 := preOps.foldl (fun c op => applyOp 0 op c) Collector.empty
+      let p0 : Pipe Unit := ⟨(), none⟩
+      let p1 := if cflag == "1" then p0.setMetrics c0 else p0
+      match runsLoop (runs.splitOn ",") 1 p1 [] with
+      | some (res, p2) =>
+        match p2.getMetrics with
+        | none => s!"res={",".intercalate res} coll=F"
+        | some c =>
+          -- `start` is observed as: after one more `record_end`, is an elapsed time available?
+          let startSet := (elapsed (recordEnd 1000000 c)).isSome
+          s!"res={",".intercalate res} coll=T el={boolStr (elapsed c).isSome} start={boolStr startSet} keys={keysStr c} snap={snapStr c}"
+      | none => "BAD-OP"
+    | _, _ => "BAD-OP"
+  | _, _, _ => "BAD-OP"
+
+/-- `LOCKSITES` ↦ the model's table of lock acquisitions per method, all covered by a yield point -/
+def handleLockSites (args : List String) : String :=
+  if !args.isEmpty then "BAD-OP" else
+  s!"sites={joinOr "," (lockSites.map (fun kv => kv.1 ++ ":" ++ toString kv.2))} uncovered=0"
+
+/-- `MPOISON how=<…> want=<token>`: a collector that survived a panic of one of its callers is attached;
+    the modelled `run_collect` returns the pipeline's own result (`metrics_do_not_affect_result`). -/
+def handleMpoison (args : List String) : String :=
+  match kv? "how" args, kv? "want" args with
+  | some how, some tok =>
+    if args.length != 2 || !(["overflow", "usermetric", "none"].contains how) then "BAD-OP" else
+    match runOne "ok" tok 1 ⟨(), some Collector.empty⟩ with
+    | some (res, _) => "res=" ++ res
+    | none => "BAD-OP"
+  | _, _ => "BAD-OP"
+
+def handlers : List (String × (List String → String)) :=
+  [("LOCKSITES", handleLockSites), ("MPOISON", handleMpoison), ("METRICS", handleMetrics), ("STRESS", handleStress), ("MRUN", handleMrun)]
 
 end IB.D16
